@@ -55,11 +55,13 @@ Proof.
   { cbn [existsb]. fold pc pd pq. rewrite dom_insert_L, dom_reroute.
     rewrite !bool_decide_eq_false_2; [done| | |]; intros [E%elem_of_singleton|E]%elem_of_union; done. }
   rewrite Hpins.
-  assert (Hsrc : is_in (ty g n) [BbIn] || is_in (ty g clk_name) [BbIn; BbOut] = false).
+  assert (Hsrc : is_in (ty g n) [BbIn; BbOut] || is_in (ty g clk_name) [BbIn; BbOut] = false).
   { apply orb_false_iff. split.
     - apply connect_g_done in E4 as [Hchk _]; [|done|done]. unfold connect_check in Hchk. apply andb_true_iff in Hchk as [_ Hchk].
       apply negb_true_iff in Hchk. cbn [existsb] in Hchk. rewrite orb_false_r in Hchk. rewrite (Hty3 n Hn) in Hchk.
-      destruct (ty g n) as [t0|]; [|done]. eapply bbin_source_rejected. exact Hchk.
+      assert (T3d : ty g3 pd = Some BbIn).
+      { unfold ty, g3. rewrite lookup_insert_ne, lookup_insert by done. done. }
+      rewrite T3d in Hchk. destruct (ty g n) as [t0|]; [|done]. eapply bb_clock_rejected. exact Hchk.
     - apply connect_g_done in E6 as [Hchk _]; [|done|done]. unfold connect_check in Hchk. apply andb_true_iff in Hchk as [_ Hchk].
       apply negb_true_iff in Hchk. cbn [existsb] in Hchk. rewrite orb_false_r in Hchk.
       assert (T5 : ty g5 clk_name = ty g clk_name).
